@@ -417,6 +417,16 @@ def rule_capacity(prog, res):
                 a = fa.call_args(b)
                 g = [x for x in fa.guards(b) if x[0].op == "call" and x[0].args[0] == "core::char::methods::<impl char>::len_utf8" and x[1] == "eq" and x[2] == 1]
                 ok = bool(g) and a[1].op == "cast" and a[1].args[1] is g[0][0].args[1][0]
+                if not ok and a[1].op == "cast":
+                    # `ch.is_ascii()` holds exactly for the code points below 0x80 - the characters whose UTF-8 encoding is one byte
+                    def _chr(x):
+                        while x.op in ("ref", "mem", "memval"):
+                            x = x.args[0]
+                        return x
+                    g2 = [x for x in fa.guards(b) if x[0].op == "call" and x[0].args[0] == "core::char::methods::<impl char>::is_ascii"
+                          and ((x[1] == "eq" and x[2] == 1) or (x[1] == "ne" and 0 in x[2]))]
+                    ok = bool(g2) and (_chr(g2[0][0].args[1][0]) is _chr(a[1].args[1]) or
+                                       show(_chr(g2[0][0].args[1][0]), fa.names) == show(_chr(a[1].args[1]), fa.names))
         if npush == 0:
             # no single-byte shortcut at all: every character goes through extend_from_slice(encode_utf8(ch).as_bytes()) (checked below)
             exts = [fa.call_args(b)[1] for b, t in f.calls() if callee_of(t) == "tinyvec::ArrayVec::<A>::extend_from_slice"]
@@ -622,6 +632,57 @@ def rule_utf8_writers(prog, res):
     res.ob("X-utf8", "1029 decode | text is rejected only for a short body or invalid UTF-8 (no other condition)", not extra_rej, "; ".join(extra_rej)[:300], f.loc)
 
 
+_LEAD = {}
+
+
+def _is_leading_byte_count(prog, x):
+    """x = count(filter(iter(as_bytes(s)), p)) with p(b) true exactly for the bytes that are not of the form 0b10xx_xxxx (decided by
+    evaluating the predicate closure on all 256 byte values)"""
+    if not (x.op == "call" and x.args[0].endswith("Iterator>::count") or (x.op == "call" and x.args[0] == "core::iter::Iterator::count")):
+        return False
+    y = x.args[1][0] if x.args[1] else None
+    if y is None or not (y.op == "call" and y.args[0] == "core::iter::Iterator::filter" and len(y.args[1]) == 2):
+        return False
+    src, clo = y.args[1]
+    if not (src.op == "call" and src.args[0] == "core::slice::<impl [T]>::iter"):
+        return False
+    z = src.args[1][0]
+    while z.op in ("ref", "mem", "memval"):
+        z = z.args[0]
+    if not (z.op == "call" and z.args[0] == "core::str::<impl str>::as_bytes"):
+        return False
+    if clo.op != "closure":
+        return False
+    path = clo.args[0]
+    key = (id(prog), path)
+    if key not in _LEAD:
+        ok = False
+        try:
+            import guardsem
+            from bitsem import Ref, State, Closure
+            f = prog.fn(path)
+            ok = f is not None
+            for bval in range(256):
+                if not ok:
+                    break
+                it = guardsem.TabInterp(prog, f, 64)
+                it.choices = {"full": False}
+                st = State()
+                st.locals[-20] = bval
+                st.locals[-21] = Ref(("local", -20, (), st.frame))
+                st.locals[-22] = Closure(path, [])
+                st.locals[1] = Ref(("local", -22, (), st.frame))
+                st.locals[2] = Ref(("local", -21, (), st.frame))
+                r = it.run_fn(st)
+                if hasattr(r, "concrete"):
+                    r = r.concrete()
+                ok = r in (0, 1, True, False) and bool(r) == ((bval & 0xC0) != 0x80)
+        except Exception:
+            ok = False
+        _LEAD[key] = ok
+    return _LEAD[key]
+
+
 def rule_limits(prog, res):
     """X-lim / K-adeq on 1029 encode: counts are refused unless they fit their fields."""
     f = prog.fn("df::dfs::df_msg1029_utf8_str::encode")
@@ -641,11 +702,15 @@ def rule_limits(prog, res):
             if x.op == "loc" and depth < 2 and blk is not None:
                 if from_arg_string(fa.val(x.args[1], (blk, 10 ** 6)), blk, depth + 1):
                     return True
-            if (x.op == "call" and x.args[0] in ("core::str::<impl str>::chars", "core::str::<impl str>::bytes")) or x.op == "len":
-                # chars() / bytes() of, or the byte length (str::len) of ..
+            if (x.op == "call" and x.args[0] in ("core::str::<impl str>::chars", "core::str::<impl str>::bytes", "core::str::<impl str>::as_bytes")) or x.op == "len":
+                # chars() / bytes() / as_bytes() of, or the byte length (str::len, as_bytes().len()) of ..
                 y = x.args[1][0] if x.op == "call" else x.args[0]
                 while y.op in ("ref", "mem", "memval"):
                     y = y.args[0]
+                if y.op == "call" and y.args[0] == "core::str::<impl str>::as_bytes":
+                    y = y.args[1][0]
+                    while y.op in ("ref", "mem", "memval"):
+                        y = y.args[0]
                 if y.op == "call" and y.args[0].endswith("ArrayString<N> as core::ops::Deref>::deref"):
                     z = y.args[1][0]
                     while z.op in ("ref", "mem", "memval"):
@@ -669,6 +734,9 @@ def rule_limits(prog, res):
                 ok = True
                 si = sc
         what = "chars" if any(x.op == "call" and "Chars" in x.args[0] for x in subterms(v)) else "bytes"
+        if what == "bytes" and any(_is_leading_byte_count(prog, x) for x in subterms(v)):
+            # the number of bytes that are not UTF-8 continuation bytes (0b10xx_xxxx) of a str = its number of characters
+            what = "chars"
         kinds[what] = (w, si)
         res.ob("X-lim", "1029 encode | the %s count written in %s bits cannot wrap (refused above %s)" % (what, w, (1 << w) - 1 if w else "?"), ok,
                "count in %s" % (si,), {"file": f.loc["file"], "line": t["line"]}, sample={"count": what, "bits": w, "interval": si})
@@ -684,6 +752,15 @@ def rule_limits(prog, res):
         v = a[1]
         exact = v.op == "field" and v.args[1] == 0 and v.args[0].op == "downcast" and v.args[0].args[1] == 1 and v.args[0].args[0].op == "call" \
             and v.args[0].args[0].args[0] == "<core::str::Bytes as core::iter::Iterator>::next"
+        if not exact:
+            # `for &b in text.as_bytes()`: the item is a reference into the byte slice, the value written is what it points to
+            y_ = v
+            while y_.op in ("memval", "mem"):
+                y_ = y_.args[0]
+            if y_ is not v and y_.op == "field" and y_.args[1] == 0 and y_.args[0].op == "downcast" and y_.args[0].args[1] == 1 and y_.args[0].args[0].op == "call" \
+                    and y_.args[0].args[0].args[0] in ("<core::slice::Iter<'a, T> as core::iter::Iterator>::next", "<core::slice::Iter<T> as core::iter::Iterator>::next"):
+                exact = True
+                v = y_
         if exact and is_const(a[2]) and const_val(a[2]) == 8:
             okb = any(b in body for body in loops.values())
             if okb:
@@ -696,11 +773,14 @@ def rule_limits(prog, res):
                 if src is not None:
                     y = src[0]
                     chain = []
-                    while y.op == "call" and y.args[1] and len(chain) < 6:
+                    while y.op == "call" and y.args[1] and len(chain) < 8:
                         chain.append(y.args[0])
                         y = y.args[1][0]
-                    drive = all(c_.endswith("::into_iter") or c_ == "core::str::<impl str>::bytes" for c_ in chain) and "core::str::<impl str>::bytes" in chain \
-                        and from_arg_string(src[0], b)
+                        while y.op in ("ref", "mem", "memval"):
+                            y = y.args[0]
+                    BYTE_SRC = ("core::str::<impl str>::bytes", "core::str::<impl str>::as_bytes")
+                    drive = all(c_.endswith("::into_iter") or c_ in BYTE_SRC or c_ == "core::slice::<impl [T]>::iter" or c_.endswith("Deref>::deref") for c_ in chain) \
+                        and any(c_ in BYTE_SRC for c_ in chain) and from_arg_string(src[0], b)
                 res.ob("X-lim", "1029 encode | no byte is skipped: the write is on every iteration and the loop runs over bytes() of the text itself", okw and drive,
                        dw if not okw else ("iterator chain %s" % chain if src is not None else "iterator source not recognised"), f.loc)
     res.ob("X-lim", "1029 encode | every byte of the text is written with 8 bits", okb, "", f.loc)
